@@ -87,7 +87,12 @@ def to_gym(sd):
     if k == "box":
         shape, lo, hi, wide = sd[1], sd[2], sd[3], sd[4]
         dt = np.int64 if wide else np.int32
-        return GymBox(np.array(lo, dtype=dt).reshape(shape), np.array(hi, dtype=dt).reshape(shape), dtype=dt)
+        lo_a, hi_a = np.array(lo, dtype=dt).reshape(shape), np.array(hi, dtype=dt).reshape(shape)
+        if len(shape) >= 2 and (sum(lo) + sum(hi) + len(lo)) % 3 == 0:
+            # the bound arrays in Fortran order (what `Box(low.T, high.T)` of transposed tables gives): gymnasium keeps
+            # the layout, the Box equals the C-ordered one (round 6: a size list read in memory order)
+            lo_a, hi_a = np.asfortranarray(lo_a), np.asfortranarray(hi_a)
+        return GymBox(lo_a, hi_a, dtype=dt)
     if k == "fbox":
         shape, lo, hi, bits = sd[1], sd[2], sd[3], sd[4]
         dt = np.float64 if bits == 64 else np.float32
@@ -159,20 +164,43 @@ def used_space(sd):
     history: a channel was first replaced by another sub-space (public Dict.__setitem__), the real functions were
     called on that, and the channel was put back -- equal to a freshly built space, but not a fresh object"""
     sp = to_gym(sd)
-    if sd[0] == "dict" and sd[1] and (len(repr(sd)) % 2 == 0):
-        key = sorted(k for k, _ in sd[1])[0]
-        orig = sp[key]
+
+    def use(root):
         try:
-            sp[key] = Tuple((Discrete(3), MultiBinary(2)))
-            x = sp.sample()
-            for fn in (lambda: FW.unflatten(sp, FW.flatten(sp, x)), lambda: FW.flatten_space(sp),
-                       lambda: RW.unravel(sp, RW.ravel(sp, x)), lambda: RW.ravel_space(sp)):
-                try:
-                    fn()
-                except Exception:  # noqa: BLE001
-                    pass
-        finally:
-            sp[key] = orig
+            x = root.sample()
+        except Exception:  # noqa: BLE001
+            return
+        for fn in (lambda: FW.unflatten(root, FW.flatten(root, x)), lambda: FW.flatten_space(root),
+                   lambda: FW.flatdim(root),
+                   lambda: RW.unravel(root, RW.ravel(root, x)), lambda: RW.ravel_space(root)):
+            try:
+                fn()
+            except Exception:  # noqa: BLE001
+                pass
+
+    def dict_nodes(space, desc, out):
+        if desc[0] == "dict":
+            out.append((space, desc))
+            for key, sub in desc[1]:
+                dict_nodes(space[key], sub, out)
+        elif desc[0] == "tup":
+            for sub_sp, sub in zip(space.spaces, desc[1]):
+                dict_nodes(sub_sp, sub, out)
+        return out
+
+    # every Dict node of the tree, nested ones too (round 6: a size remembered on a space object that is a CHILD of
+    # the space in use); the functions are called on the ROOT while the channel is replaced, so that whatever any
+    # level remembers was computed for another space
+    for node, nd in dict_nodes(sp, sd, []):
+        if nd[1] and (len(repr(nd)) % 2 == 0):
+            keys = sorted(k for k, _ in nd[1])
+            key = keys[len(repr(nd)) // 2 % len(keys)]      # not always the first channel
+            orig = node[key]
+            try:
+                node[key] = Tuple((Discrete(3), MultiBinary(2)))
+                use(sp)
+            finally:
+                node[key] = orig
     return sp
 
 
